@@ -1,9 +1,10 @@
 #!/bin/bash
-# all_seeds.sh [tier]: applies every seeded change in turn to /repo, runs the check(s) recorded in its meta.json and reverts.
+# all_seeds.sh [tier [seed-id ...]]: applies every seeded change (or only the listed ones, in the order given) in turn to /repo, runs the check(s) recorded in its meta.json and reverts.
 # Prints one line per seed; a seed is detected when the check exits 1 with a VIOLATION line.  /repo must be clean and idle.
-TIER=${1:-quick}
+TIER=${1:-quick}; shift
 cd /verif
-for d in seeded/C*/; do
+if [ $# -gt 0 ]; then LIST=""; for x in "$@"; do LIST="$LIST seeded/$x/"; done; else LIST=$(ls -d seeded/C*/); fi
+for d in $LIST; do
   sid=$(basename $d)
   checks=$(python3 -c "import json;print(json.load(open('$d/meta.json'))['detected_by']['checks'].split(',')[0].strip())")
   [ -z "$(git -C /repo status --porcelain)" ] || { echo "/repo not clean"; exit 2; }
